@@ -90,7 +90,8 @@ add("C18", "CH",
     "presence/value patterns the emitted sync/async methods never alter a caller value and populate unset (optional) "
     "resp. empty (plain) fields with fresh, pairwise different values. Generation path rejects duplicates (concrete).",
     "DESIGN.md section 5 C18",
-    "<= 2 settings entries quick / 3 thorough, <= 2 fields per entry; yaml.dump error rendering stubbed. " + CLIENT_NOTE)
+    "<= 2 settings entries quick / 3 thorough, <= 2 fields per entry, selectors from a menu of 5 (two unary, one missing, "
+    "one streaming, one with a leading dot); yaml.dump error rendering stubbed. " + CLIENT_NOTE)
 
 add("C16", "CH",
     "CrossHair (z3) enumeration with solver-proved exhaustion over the real API.build (all passes) on descriptor sets "
@@ -113,12 +114,15 @@ add("C20", "BSTR",
     "guard: for ALL texts within the bound the real rst()+wrap() output cannot terminate a triple-quoted literal early "
     "(Python tokenizer rule encoded in z3). Re-flow: for ALL texts of two bounded families and several (width, indent, "
     "offset) settings the real wrap() never drops, duplicates or reorders a word and every output line fits the width "
-    "(first line: width - offset) unless it is a single unbreakable word (textwrap replaced by a validated model).",
+    "(first line: width - offset) unless it is a single unbreakable word (textwrap replaced by a validated model). Comment "
+    "selection: for ALL leading/trailing/detached comments within the bound the words of Metadata.doc are the words of the "
+    "first non-empty source.",
     "DESIGN.md section 5 C20",
     "Family U: all strings <= 6 (quick) / 8 chars over an 8-character alphabet; family S: structured strings up to ~20 "
-    "chars; rst and wrap texts <= 6 / 8 chars. textwrap is replaced by a step-by-step model validated against the real module on "
-    "each run; texts whose over-long first line has tabs/leading blanks (known finding F3), the pandoc "
-    "branch and Metadata.doc are outside the claim. Trusted: z3, sre "
+    "chars; rst and wrap texts <= 6 / 8 chars for 5 / 9 (width, indent, offset) settings; comments <= 3 / 4 chars. textwrap is "
+    "replaced by a step-by-step model validated against the real module on "
+    "each run; texts whose over-long first line has tabs/leading blanks (known finding F3) and the pandoc "
+    "branch are outside the claim. Trusted: z3, sre "
     "parser, the BSTR engine (validated against the real functions on concrete strings every run).")
 
 add("C12", "BSTR+CH",
@@ -158,7 +162,8 @@ add("C11", "BSTR+CH (+ concrete structure diff)",
     "Naming.build infers the expected (namespace, name, version) and overrides replace exactly their part; unknown option "
     "tokens never change the parsed Options. Per rendered program the file-set structure is diffed concretely.",
     "DESIGN.md section 5 C11",
-    "Strings of 2-3 symbolic characters per component; package segments that look like versions excluded; two-template "
+    "Strings of 2-3 symbolic characters per component, eight version shapes with symbolic digits; package segments that "
+    "look like versions excluded; two-template "
     "collisions and snake-case coincidences of service/proto names are outside the claim.")
 
 add("C09", "CH (+ concrete table diff)",
@@ -225,9 +230,11 @@ add("C10", "z3 strings + site inventory + multi-seed replay",
     "order-adversary formulation: AST/Jinja inventory of every set iteration, z3 (strings) key-injectivity obligation per "
     "sorted site, sat models replayed as requests under several PYTHONHASHSEEDs in separate processes",
     "Every place where set iteration order can reach the output is classified on each run; a sorted site is discharged when "
-    "z3 shows that no two distinguishable elements share a sort key (then it is order-insensitive for EVERY order), a raw "
-    "site needs a reviewed justification whose side condition is re-checked, anything else is inconclusive; a battery of "
-    "requests (equal short resource names, five sub-packages, retry codes, ...) must be byte-identical across hash seeds.",
+    "z3 shows that no two distinguishable elements share a sort key (then it is order-insensitive for EVERY order; key "
+    "lambdas of Python sorted() sites are run symbolically on two strings), a raw site (incl. loops over a {% set %} alias "
+    "of a set) needs a reviewed justification whose side condition is re-checked, anything else is inconclusive; a battery "
+    "of requests (equal short resource names, five sub-packages, retry codes, three extended-operation services, ...) must "
+    "be byte-identical across hash seeds.",
     "DESIGN.md section 5 C10",
     "The classification is syntactic (AST of gapic/**/*.py, line-based for templates); 3 seeds quick / 8 thorough in the "
     "replay; non-set sources of nondeterminism (time, cwd, environment) are covered by the replay only.",
